@@ -101,6 +101,26 @@ def explore(res, rng, n):
                     f'digit {r} {enc_list(d)}', f'c19dg {r} {enc_list(d)} {enc_list(o)} {enc_list(ag)}')
             except OffGrid as e:
                 res.disagreements.append({'what': 'sequenceDigitization off grid', 'input': d, 'res': r, 'impl': str(e)})
+        # ---- digitisation at decimal resolutions (0.1, 0.2, 0.3 ...: 1/resolution is not a binary fraction): every output value is
+        # rint(d / resolution) * resolution in binary64, computed independently (core.digitise_ref)
+        if len(h) and max(abs(v) for v in h) < 4096:
+            dd = rng.choice([1, 1, 2])
+            rr = rng.choice([1, 2, 3, 5, 7, 15, 25])
+            dec = [k / 10 ** dd for k in h] + [(rr * m + rr / 2) / 10 ** dd for m in range(-2, 3)]
+            resf = rr / 10 ** dd
+            outd = call(utils.sequenceDigitization, list(dec), resf)
+            res.evaluations += 1
+            res.stat('digit_decimal_resolution')
+            if isinstance(outd, str):
+                res.failures.append({'signature': f'C19:sequenceDigitization:decimal:raised:{rr}:{dd}', 'clause': 'valid input raised ' + outd,
+                                     'api': 'sequenceDigitization', 'input': {'data': dec[:8], 'resolution': resf}})
+            else:
+                ref = [core.digitise_ref(v, resf) for v in dec]
+                bad = [(a, float(b), c) for a, b, c in zip(dec, outd, ref) if float(b) != c]
+                if bad:
+                    res.failures.append({'signature': f'C19:sequenceDigitization:decimal:value:{bad[0][0]}:{resf}', 'api': 'sequenceDigitization',
+                                         'clause': 'fail:nearest-multiple (value, returned, rint(d/resolution)*resolution): ' + repr(bad[:3]),
+                                         'input': {'data': dec[:12], 'resolution': resf}})
         # ---- aggregation: rows [range, count]
         b = rng.choice([1, 2, 3, 4, 5, 8, 1 << s, 3 << s])
         rows = [(abs(v) if rng.random() < 0.85 else -abs(v), rng.choice([1, 2, 2, 3, 4])) for v in h[:12]]
